@@ -17,7 +17,7 @@ def classify(res):
     o = res.get('outcome')
     if o == 'code':
         return 'code'
-    if o in ('parse_error', 'compile_error', 'codegen_error', 'syntax_error'):
+    if o in ('parse_error', 'compile_error', 'codegen_error', 'syntax_error', 'cli_error'):
         return 'diagnosed'
     if o == 'timeout':
         return 'timeout'
@@ -40,6 +40,72 @@ def known_class(res):
     return None
 
 
+OPT_PROGRAMS = [
+    ('opt:plain', 'parser {\n    "ab";\n    /c+/;\n    "d";\n}\n'),
+    ('opt:string', 'out str[4] s = "q";\nout int n;\nhook h;\nfinishcode F;\nparser {\n    loop {\n        try {\n            s += /[a-c]+/;\n            ";";\n            h();\n        }\n'
+                   '        catch (outofspace) {\n            delete s;\n            wait ";";\n        }\n        n = [s.len + s[0]];\n        if n > 200 {\n            finish F;\n        }\n    }\n}\n'),
+]
+
+
+def flag_names():
+    """flag names as the compiler's own --help-all prints them (no internals are imported)"""
+    import subprocess, sys, re
+    out = subprocess.run([sys.executable, compiler.REPO + '/nmfu.py', '--help-all'], capture_output=True, text=True, timeout=60).stdout
+    names, on = [], False
+    for ln in out.splitlines():
+        if ln.strip() in ('Flags:', 'Optimization Flags:'):
+            on = True
+            continue
+        if on:
+            m = re.match(r'^  ([a-z0-9][a-z0-9-]+)(\s|$)', ln)
+            if m:
+                names.append(m.group(1))
+            elif ln.strip() and not ln.startswith('  '):
+                on = False
+    return names
+
+
+def option_catalogue(rng, quick):
+    """option sets: every flag alone (on / off), every ordered pair of code-generation flags in the combinations on-off and on-on (an
+    enabled flag whose implied flag is explicitly disabled, both members of an exclusive pair, ...), levels, generation options with
+    boundary values.  Legal sets must give code, contradictory ones a diagnosis - never an exception, never a hang."""
+    names = flag_names()
+    gen = [n for n in names if not n.startswith(('verbose-', 'debug-'))]
+    sets = [[]]
+    for n in names:
+        sets.append(['-f' + n])
+        sets.append(['-fno-' + n])
+    pairs = []
+    for a in gen:
+        for b in gen:
+            if a != b:
+                pairs.append(['-f' + a, '-fno-' + b])
+                pairs.append(['-fno-' + b, '-f' + a])
+                if a < b:
+                    pairs.append(['-f' + a, '-f' + b])
+                    pairs.append(['--flag', a + '=yes', '--flag', b + '=no'])
+    rng.shuffle(pairs)
+    sets += pairs[:260] if quick else pairs
+    for lv in ('-O0', '-O1', '-O2', '-O3'):
+        sets.append([lv, '-fyield-support', '-feof-support'])
+    for opt in ('--collapsed-range-length', '--max-shortcircuit-fallthrough', '--max-shortcircuit-action-penalty'):
+        for v in ('0', '1', '-1', '1000000', 'x', ''):
+            sets.append(['-O3', opt, v])
+    triples = []
+    for i in range(60 if quick else 1500):
+        k = rng.sample(gen, 3)
+        triples.append([rng.choice(['-f', '-fno-']) + x for x in k] + [rng.choice(['-O0', '-O2', '-O3'])])
+    sets += triples
+    items = []
+    for i, a in enumerate(sets):
+        n, src = OPT_PROGRAMS[i % len(OPT_PROGRAMS)]
+        items.append(('%s:%d' % (n, i), src, a, False))
+        if not quick:
+            n2, src2 = OPT_PROGRAMS[(i + 1) % len(OPT_PROGRAMS)]
+            items.append(('%s:%d' % (n2, i), src2, a, False))
+    return items
+
+
 def run(tier, seed):
     chk = Check('C18', tier, seed, 'exploration')
     rng = random.Random(seed * 7919 + 18)
@@ -54,6 +120,18 @@ def run(tier, seed):
         for i in range(40 if quick else 160):
             s = rng.randrange(1 << 30)
             items.append(('%s:%d' % (fam, s), fn(s), ['-O1'], False))
+    opt_items = option_catalogue(rng, quick)
+    items += opt_items
+    # bounded-exhaustive statement programs (gen/enumprog.py): quick walks a strided slice whose offset rotates with the seed
+    from gen import enumprog
+    stride = 9 if quick else 1
+    n_enum = 0
+    for idx, name, ast, src, args in enumprog.programs(3, stride=stride, offset=seed):
+        items.append((name, src, args, False))
+        n_enum += 1
+    for idx, name, ast, src, args in enumprog.programs(4, stride=4001 if quick else 53, offset=seed, minsize=4):
+        items.append((name, src, args, False))
+        n_enum += 1
     for n, s, a in runner.corpus_programs(('example', 'ok', 'fail')):
         items.append((n, s, list(a) or ['-O3'], n.endswith('.fail.nmfu')))
     jobs = [{'id': i, 'src': s, 'args': a, 'name': 'p', 'want': ['codegen']} for i, (n, s, a, must) in enumerate(items)]
@@ -86,6 +164,8 @@ def run(tier, seed):
         'evaluations': len(items), 'distinct_nontrivial': len(set(s for n, s, a, m in items)),
         'rule': 'edge-case catalogue (%d one-rule-at-a-time sources) + random mutations of generated programs + all generator families + corpus; distinct = distinct source texts' % len(edge.SNIPPETS),
         'samples': [{'name': items[i][0], 'source': items[i][1], 'outcome': events[i]['outcome']} for i in (0, 5, len(edge.SNIPPETS) + 3)],
+        'option_sets': len(opt_items), 'enumerated_programs': n_enum,
+        'enumeration': 'all statement programs of size <= 3 of the grammar in gen/enumprog.py (%s) + a strided slice of size 4' % ('every 9th, offset = seed' if quick else 'every one'),
         'outcome_classes': dict(classes), 'rejected_events': len(rejected), 'states': r.distinct,
     }
     chk.assumptions = ['per-compilation time limit 240 s', 'sources come from generators and a catalogue, not from the whole grammar']
